@@ -16,6 +16,7 @@ type GenCfg struct {
 	LongStr     int  // occasional long string
 	NullPct     int  // probability (percent) an optional is nil
 	Adversarial bool // bias scalars to extremes
+	HugeStr     int  // > 0: about 0.2 % of the strings have a length in [HugeStr/2, HugeStr]
 	UniformStr  bool // ordinary strings have a length in [MaxStr/2, MaxStr] instead of rapid's small-biased lengths
 	// Class selects an adversarial value class for all scalars of a workload:
 	// "" (mixed), "neg" (all negative / high bit set), "tiny" (two-value domains, many equal),
@@ -78,6 +79,11 @@ func GenLeaf(t *rapid.T, k Kind, cfg GenCfg, label string) *Val {
 	case String:
 		if special {
 			return &Val{S: Bytes(rapid.SampledFrom(strSpecials).Draw(t, label))}
+		}
+		if h := rapid.IntRange(0, 999).Draw(t, label+"?huge"); cfg.HugeStr > 0 && h >= 500 && h < 502 {
+			// rarely: a string beyond 64 KiB-ish limits (a window in the middle of the range is hit with about the nominal 0.2 %)
+			n := rapid.IntRange(cfg.HugeStr/2, cfg.HugeStr).Draw(t, label+"#hugelen")
+			return &Val{S: expandBytes(rapid.Uint64().Draw(t, label+"#seed"), n)}
 		}
 		if cfg.LongStr > 0 && rapid.IntRange(0, 39).Draw(t, label+"?long") == 0 {
 			// a long string: length in the upper half of the bound, incompressible-looking content expanded
